@@ -91,6 +91,9 @@ def _compare(out, cands, w, l, E_sets, rankings):
     js = [{"winner": w, "loser": l, "assertion_type": "WINNER_ONLY", "already_eliminated": ""}]
     for E in E_sets:
         js.append({"winner": w, "loser": l, "assertion_type": "IRV_ELIMINATION", "already_eliminated": list(E)})
+    import json as _json
+
+    js = _json.loads(_json.dumps(js))   # as read from the assertion file: equal strings, not the library's constant objects
     asn = Assertion.make_assertions_from_json(contest=con, candidates=list(cands), json_assertions=js)
     keys = list(asn.keys())
     gen = [NEBAssertion("K", w, l)] + [NENAssertion("K", w, l, list(E)) for E in E_sets]
